@@ -64,15 +64,33 @@ def shapes(cls, thorough):
         yield "MAXD", U.MAXD(cls)
 
 
+def present_holders(inst, out=None, path=()):
+    """name -> [(path, holder instance)] over the non-repeated descendant aggregates PRESENT in this instance"""
+    out = {} if out is None else out
+    for c in S.children(type(inst)):
+        if c.kind != "sub":
+            continue
+        sub = vars(inst).get(c.name)
+        if sub is None:
+            continue
+        p = path + (c.name,)
+        for cc in S.children(type(sub)):
+            if cc.kind in ("elem", "sub"):
+                out.setdefault(cc.name, []).append((p, sub))
+        present_holders(sub, out, p)
+    return out
+
+
 def check_lookup(t, clsname, shape, inst, names, own):
+    present = present_holders(inst)
     for name, paths in names.items():
         if name in own or hasattr(type(inst), name):
             continue  # the root's own attribute / a method or property of the class wins: not a proxy look-up
-        if len(paths) != 1:
-            continue
+        holders = present.get(name, [])
+        if len(holders) > 1:
+            continue  # several present descendants define it: which one answers is not pinned down
         t.count("evaluations")
         t.count("lookups")
-        holder = walk(inst, paths[0])
         case = {"cls": clsname, "shape": shape, "name": name}
         try:
             got = getattr(inst, name)
@@ -82,22 +100,23 @@ def check_lookup(t, clsname, shape, inst, names, own):
         except Exception as e:
             t.fail(f"C16|{clsname}|getattr|raises-{type(e).__name__}", case, f"getattr({clsname}, {name!r}) on shape {shape}: {type(e).__name__}: {e}")
             continue
-        if holder is None:
-            # the defining aggregate is absent from this instance: a clean miss (or None) is all that is asked
+        if not holders:
+            # no present descendant defines it: a clean miss (or None) is all that is asked
             if err is None and got is not None:
-                t.fail(f"C16|{clsname}|getattr|value-from-nowhere", case, f"{name}: defining aggregate {'/'.join(paths[0])} is absent but got {got!r}")
+                t.fail(f"C16|{clsname}|getattr|value-from-nowhere", case, f"{name}: no present descendant defines it but got {got!r}")
             else:
                 t.outcome("absent-clean")
             continue
+        hpath, holder = holders[0]
         stored = vars(holder).get(name)
         if err is not None:
             if stored is None:
                 t.outcome("stored-none-miss")
                 continue
-            t.fail(f"C16|{clsname}|getattr|defined-name-not-readable", case, f"{name} is stored at {'/'.join(paths[0])} = {stored!r} but getattr raises AttributeError (shape {shape})")
+            t.fail(f"C16|{clsname}|getattr|defined-name-not-readable", case, f"{name} is stored at {'/'.join(hpath)} = {stored!r} but getattr raises AttributeError (shape {shape})")
             continue
         if got is not stored:
-            t.fail(f"C16|{clsname}|getattr|not-the-stored-object", case, f"{name}: got {got!r}, stored at {'/'.join(paths[0])}: {stored!r}")
+            t.fail(f"C16|{clsname}|getattr|not-the-stored-object", case, f"{name}: got {got!r}, stored at {'/'.join(hpath)}: {stored!r}")
             continue
         t.outcome("proxy-ok")
 
